@@ -2,9 +2,11 @@ use crate::infra::Ctx;
 pub mod c01;
 pub mod c01real;
 pub mod c02;
+pub mod c06;
 pub mod c08;
 pub mod c09;
 pub mod c10;
+pub mod c13;
 pub mod c14;
 pub mod c15;
 pub mod c16;
@@ -16,9 +18,11 @@ pub fn run(ctx: &Ctx) -> Option<(&'static str, &'static str)> {
     match ctx.id.as_str() {
         "C01" => Some(c01::run(ctx)),
         "C02" => Some(c02::run(ctx)),
+        "C06" => Some(c06::run(ctx)),
         "C08" => Some(c08::run(ctx)),
         "C09" => Some(c09::run(ctx)),
         "C10" => Some(c10::run(ctx)),
+        "C13" => Some(c13::run(ctx)),
         "C14" => Some(c14::run(ctx)),
         "C15" => Some(c15::run(ctx)),
         "C16" => Some(c16::run(ctx)),
